@@ -4,7 +4,7 @@ At every query point of a seeded history two deep copies of the bandit (same mod
 position, generator aliasing preserved by deepcopy) are asked predict(X) and predict_expectations(X); an
 online checker compares row by row.  Ties are provoked (binary / few-valued rewards, unobserved arms).
 
-As built: The live bandit answers queries too (whatever a real query leaves behind is part of the state of the next twin check); a predict -> warm_start -> predict scenario in which the arg-max changes; near-tie rewards (means differing in the 10th digit); one query of 131073-262144 rows in a quarter of the cases without neighbourhood policy.
+As built: The live bandit answers queries too (whatever a real query leaves behind is part of the state of the next twin check); a predict -> warm_start -> predict scenario in which the arg-max changes; near-tie rewards (means differing in the 10th digit); one query of 131073-262144 rows in a quarter of the cases without neighbourhood policy. The UCB1 variant of the warm-start scenario uses rewards <= -8 so that the arg-max certainly changes.
 """
 from mon import env  # noqa: F401
 import copy
